@@ -179,6 +179,13 @@ fn corpus() -> Vec<String> {
         v.push(format!("?{s}"));
         v.push(format!("#{s}"));
     }
+    // the edges of the ucschar / iprivate ranges of RFC 3987 (every plane: xFFFD is in, xFFFE / xFFFF are out; plane 14 starts at E1000)
+    for c in ["\u{9F}", "\u{A0}", "\u{D7FF}", "\u{F900}", "\u{FDCF}", "\u{FDD0}", "\u{FDEF}", "\u{FDF0}", "\u{FFEF}", "\u{FFF0}", "\u{FFFD}", "\u{10000}", "\u{1FFFD}", "\u{1FFFE}", "\u{1FFFF}", "\u{20000}",
+        "\u{DFFFD}", "\u{DFFFE}", "\u{E0000}", "\u{E0001}", "\u{E0FFF}", "\u{E1000}", "\u{EFFFD}", "\u{EFFFE}", "\u{F0000}", "\u{FFFFD}", "\u{FFFFE}", "\u{100000}", "\u{10FFFD}", "\u{10FFFE}", "\u{E000}", "\u{F8FF}"] {
+        for t in ["http://a/{}", "http://{}/", "s:{}", "?{}", "#{}", "{}", "http://u{}@h/", "a/{}?{}"] {
+            v.push(t.replace("{}", c));
+        }
+    }
     // control characters and line ends: a string is judged as a whole, not line by line
     for s in ["http://example.org/\n", "\nhttp://example.org/", "http://a/\n#f", "a\nb", "\n", "not an <IRI> at all\n", "http://a/b\r\n", "x:y\nz", "\n/a", "?q\n", "http://a/\t"] {
         v.push(s.to_string());
